@@ -11,6 +11,14 @@ called by the handler thread (replies, help text) and by any number of other thr
 poller threads, log messages).  `sendall` may hand the frame to the socket in several pieces; a
 sender is between `acquire` and `release` while it does so.  Senders are numbered; sender `i` has a
 queue of frames it is going to send.
+
+`sendall` may also raise after some of the pieces went out (a time-out with the output buffer full, a reset):
+
+                try: self.request.sendall(outdata)
+                except …: self.running = False
+
+(tcp.py:104-112, every exception).  From then on every `send_reply` of every thread takes the lock, finds
+`self.running` false and writes nothing.
 -/
 namespace Frappy.Wire
 
@@ -27,14 +35,20 @@ structure SockState where
   done : List Bytes
   /-- ghost: the same with the number of the sender of each frame -/
   doneBy : List (Nat × Bytes)
+  /-- `self.running`: false once a `sendall` has raised -/
+  running : Bool
+  /-- ghost: the part of its frame which the `sendall` that raised had written -/
+  tail : Bytes
+  /-- ghost, per sender: the frames that were not delivered -- the torn one, then those dropped afterwards -/
+  lost : Nat → List Bytes
 
 def upd {α : Type} (f : Nat → α) (i : Nat) (a : α) : Nat → α := fun j => if j = i then a else f j
 
 /-- one atomic step of one sender -/
 inductive SendStep : SockState → SockState → Prop
-  /-- `send_lock.acquire()` succeeds only when nobody holds the lock; `sendall` begins -/
+  /-- `send_lock.acquire()` succeeds only when nobody holds the lock; `self.running` is true: `sendall` begins -/
   | acquire (s : SockState) (i : Nat) (f : Bytes) (q : List Bytes) :
-      s.lock = none → s.queue i = f :: q →
+      s.lock = none → s.running = true → s.queue i = f :: q →
       SendStep s { s with lock := some i, cur := upd s.cur i (some ([], f)), queue := upd s.queue i q }
   /-- `sendall` writes the next `k` bytes (no test of the lock here: the code does not test it either) -/
   | write (s : SockState) (i : Nat) (w r : Bytes) (k : Nat) :
@@ -44,6 +58,17 @@ inductive SendStep : SockState → SockState → Prop
   | release (s : SockState) (i : Nat) (w : Bytes) :
       s.cur i = some (w, []) →
       SendStep s { s with lock := none, cur := upd s.cur i none, done := s.done ++ [w], doneBy := s.doneBy ++ [(i, w)] }
+  /-- `sendall` raises with a part `r` of the frame not written (whatever pieces went out before stay out);
+  the `except` clause sets `self.running = False`; the lock is released -/
+  | fail (s : SockState) (i : Nat) (w r : Bytes) :
+      s.cur i = some (w, r) → r ≠ [] →
+      SendStep s { s with lock := none, cur := upd s.cur i none, running := false, tail := w,
+                          lost := upd s.lost i (s.lost i ++ [w ++ r]) }
+  /-- `send_reply` after a send has failed: the lock is taken, `self.running` is false, nothing is written, the lock
+  is released (one step: nothing another sender could observe happens in between) -/
+  | skip (s : SockState) (i : Nat) (f : Bytes) (q : List Bytes) :
+      s.lock = none → s.running = false → s.queue i = f :: q →
+      SendStep s { s with queue := upd s.queue i q, lost := upd s.lost i (s.lost i ++ [f]) }
 
 inductive SendReach (init : SockState) : SockState → Prop
   | start : SendReach init init
@@ -51,7 +76,8 @@ inductive SendReach (init : SockState) : SockState → Prop
 
 /-- nothing sent yet, nobody sending; `queue` says what each sender is going to send -/
 def sockInit (queue : Nat → List Bytes) : SockState :=
-  { out := [], lock := none, cur := fun _ => none, queue := queue, done := [], doneBy := [] }
+  { out := [], lock := none, cur := fun _ => none, queue := queue, done := [], doneBy := [], running := true, tail := [],
+    lost := fun _ => [] }
 
 /-- the frames sender `i` has completely sent, in the order in which the peer got them -/
 def sentBy (s : SockState) (i : Nat) : List Bytes := (s.doneBy.filter (fun p => p.1 == i)).map Prod.snd
